@@ -412,6 +412,8 @@ func c20Random(s Src, tier string) *Case {
 		stdin = strings.TrimSuffix(stdin, "\n")
 	}
 	base := replCfg(stdin)
+	tty := drawTTY(s)
+	base.TTY = tty
 	var cfgs []sim.Config
 	var roles []string
 	m := s.Int("ndeliv", 1, 3)
@@ -421,6 +423,9 @@ func c20Random(s Src, tier string) *Case {
 		roles = append(roles, d)
 	}
 	cs := c20Case(pool, cfgs, roles, "rnd")
+	for i := range cs.Runs {
+		cs.Runs[i].Cfg.TTY = tty // the fresh sessions see the same kind of streams
+	}
 	if eio {
 		// EIO at the start of line k's text: responses before k are judged
 		k := s.Int("eioline", 1, n)
